@@ -1,6 +1,7 @@
 package main
 
 import (
+	"reflect"
 	"fmt"
 	"google.golang.org/protobuf/types/known/timestamppb"
 	"path/filepath"
@@ -178,6 +179,13 @@ func runC09(seed int64, n int, dir string, tier string) *Report {
 		op := &graphops.Op{Kind: kind, L2: b}
 		cur := clone(a)
 		bb := clone(b)
+		if g.Chance(0.4) {
+			// collections that are allocated but empty (what NewNode and the parsers leave behind): as values they are
+			// empty, so nothing may depend on them
+			allocateEmptyCollections(g, reflect.ValueOf(bb), 0.6, map[uintptr]bool{})
+			allocateEmptyCollections(g, reflect.ValueOf(cur), 0.3, map[uintptr]bool{})
+			rep.Count("operands=with-allocated-empty-collections")
+		}
 		op.L2 = bb
 		beforeCoq := coqfmt.NodeList(cur)
 		opCoq := op.Coq()
@@ -236,6 +244,35 @@ func runC09(seed int64, n int, dir string, tier string) *Report {
 		}
 		if !props.SameTripleSet(props.TripleSet(uab), wantE) {
 			rep.Fail(Failure{What: "Union: edges are not the operands' edges restricted to present nodes", Input: in2})
+		}
+		// a collection that is allocated but empty is an empty value: the union (node by node, attribute by
+		// attribute) and the in-place add must not depend on which of the two an operand holds
+		{
+			x, y := clone(a), clone(b)
+			allocateEmptyCollections(g, reflect.ValueOf(x), 0.5, map[uintptr]bool{})
+			allocateEmptyCollections(g, reflect.ValueOf(y), 0.8, map[uintptr]bool{})
+			u2 := x.Union(y)
+			x2 := clone(a)
+			allocateEmptyCollections(g, reflect.ValueOf(x2), 0.5, map[uintptr]bool{})
+			x2.Add(y)
+			x3 := clone(a)
+			x3.Add(clone(b))
+			byID := func(l *sbom.NodeList) map[string]string {
+				m := map[string]string{}
+				for _, nd := range l.Nodes {
+					m[nd.Id] += coqfmt.Node(nd) + "|"
+				}
+				return m
+			}
+			for pairName, pr := range map[string][2]*sbom.NodeList{"Union": {uab, u2}, "Add": {x3, x2}} {
+				m1, m2 := byID(pr[0]), byID(pr[1])
+				for id, v := range m1 {
+					if m2[id] != v {
+						rep.Fail(Failure{What: pairName + ": the attributes of a node of the result depend on whether an operand's empty collections are nil or allocated", Detail: "node " + id, Input: in2})
+						break
+					}
+				}
+			}
 		}
 		if !setsOf(U(a, a)).same(sa) {
 			rep.Fail(Failure{What: "Union is not idempotent on node/root/edge sets", Input: pairInput([]string{"a"}, a)})
@@ -444,4 +481,36 @@ func runC10(seed int64, n int, dir string, tier string) *Report {
 	rep.CasesFiles = cf.Write(filepath.Join(dir, "cases_C10"))
 	rep.ShardSize = shardSize
 	return rep
+}
+
+// allocateEmptyCollections turns nil maps and nil slices of a message (and of the messages nested in it) into
+// empty non-nil ones, each with probability p.
+func allocateEmptyCollections(g *gen.G, v reflect.Value, p float64, seen map[uintptr]bool) {
+	switch v.Kind() {
+	case reflect.Ptr:
+		if v.IsNil() || seen[v.Pointer()] {
+			return
+		}
+		seen[v.Pointer()] = true
+		allocateEmptyCollections(g, v.Elem(), p, seen)
+	case reflect.Struct:
+		for i := 0; i < v.NumField(); i++ {
+			// (a person's contact list is the one collection whose nil and empty states are different values here)
+			if v.Type().Field(i).IsExported() && !(v.Type().Name() == "Person" && v.Type().Field(i).Name == "Contacts") {
+				allocateEmptyCollections(g, v.Field(i), p, seen)
+			}
+		}
+	case reflect.Map:
+		if v.IsNil() && v.CanSet() && g.Chance(p) {
+			v.Set(reflect.MakeMap(v.Type()))
+		}
+	case reflect.Slice:
+		if v.IsNil() && v.CanSet() && g.Chance(p) {
+			v.Set(reflect.MakeSlice(v.Type(), 0, 0))
+			return
+		}
+		for i := 0; i < v.Len(); i++ {
+			allocateEmptyCollections(g, v.Index(i), p, seen)
+		}
+	}
 }
